@@ -19,13 +19,16 @@ RULE = ('one descriptor = (device profile, api sync/async, trigger kind in {link
         'signature) among runs in which the trigger actually fired.')
 ASSUMPTIONS = ['link errors are reported the two ways RadioDriver does: from its own thread, or from inside send_packet '
                'in the calling thread', 'virtual-time horizon of 150 s per blocking call stands in for "bounded time"']
-REQUIRED = ['mon.change_notifications_during_the_value_download', 'mon.stale_item_answers_right_in_front_of_the_table_info_answer', 'mon.reconnects_issued_at_once_from_the_failure_notification', 'mon.attempts_with_duplicated_answers', 'mon.close_in_a_port_or_parameter_callback_of_the_application', 'mon.attempts', 'mon.trigger_fired', 'mon.reconnects', 'mon.fault_before_first_packet',
+REQUIRED = ['mon.runs_with_the_link_ending_around_the_packet_that_completes_the_set_up', 'mon.change_notifications_during_the_value_download', 'mon.stale_item_answers_right_in_front_of_the_table_info_answer', 'mon.reconnects_issued_at_once_from_the_failure_notification', 'mon.attempts_with_duplicated_answers', 'mon.close_in_a_port_or_parameter_callback_of_the_application', 'mon.attempts', 'mon.trigger_fired', 'mon.reconnects', 'mon.fault_before_first_packet',
             'mon.fault_mid_setup', 'mon.fault_after_connected', 'mon.close_in_callback', 'mon.sync_api', 'mon.async_api',
             'mon.line_preempted_runs', 'mon.three_cycle_histories', 'mon.fault_during_driver_connect']
 DESC_TIMEOUT = 1500
 BATCHES_PER_JOB = 4
 
 LIFE = ('link_established', 'connected', 'fully_connected')
+# statements of the code that handles the end of a connection are pre-empted more often in half of the pre-empted runs
+FOCUS = ('_disconnected', '_connected', '_connect_failed', '_all_params_updated', 'open_link', 'close_link', '_link_error_cb',
+         '_remove_callbacks', '_add_callbacks', 'wait_for_params')
 
 
 def _mems(kind):
@@ -58,6 +61,13 @@ def cases(tier, seed):
                                     'mems': mk, 'api': api, 'trigger': trig, 'reporter': reporter, 'sched': pol,
                                     'line_p': lp, 'S': S, 'resend': rnd.random() < 0.3, 'prefault': n % 3 == 0, 'drain': n % 2 == 1,
                                     'dup': n % 4 == 2, 'notify': n % 3 == 1})
+    for (nlog, nparam, proto, mk) in profiles:
+        for trig in ('fault_rx', 'close_main'):
+            for lp in (0.02, 0.1):
+                n += 1
+                out.append({'seed': seed * 1000003 + n, 'nlog': nlog, 'nparam': nparam, 'proto': proto, 'mems': mk, 'api': 'sync',
+                            'trigger': trig, 'reporter': 'driver', 'sched': 'random', 'line_p': lp, 'S': 36 if tier == 'quick' else 90,
+                            'resend': False, 'prefault': False, 'drain': n % 2 == 1, 'dup': False, 'at_connected': True})
     for i, (nlog, nparam, proto, mk) in enumerate(profiles):
         for reporter in ('sender', 'driver'):
             for (pol, lp) in (scheds if tier == 'thorough' else scheds[:2]):
@@ -133,6 +143,8 @@ def one_run(desc, k, sseed, calibrate=False):
             ob.events.append((attempt['n'],) + ev)
             name = ev[0]
             if name == 'connected':
+                if attempt['n'] == 1 and 'k_connected' not in res:
+                    res['k_connected'] = (spec.sess_tx, spec.sess_rx)
                 ob.snaps.append((attempt['n'], oracles.snapshot_toc(cf.log.toc), oracles.snapshot_toc(cf.param.toc)))
             if name == 'fully_connected':
                 missing = [(p['g'], p['n']) for p in dev.params
@@ -380,7 +392,7 @@ def one_run(desc, k, sseed, calibrate=False):
         if cf.state != State.DISCONNECTED or cf.link is not None or st2['send_lock_locked']:
             V('R8:not-disconnected-after-final-close', st2)
 
-    _, abort, s = harness.sched_case(fn, seed=sseed, policy=desc['sched'], line_p=desc['line_p'], horizon=150.0,
+    _, abort, s = harness.sched_case(fn, seed=sseed, policy=desc['sched'], line_p=desc['line_p'], horizon=150.0, line_focus=FOCUS, line_focus_p=0.35 if (desc['line_p'] > 0 and (sseed % 2 == 0 or desc.get('at_connected'))) else 0.0,
                                      max_steps=4_000_000)
     res['abort'] = abort
     res['sched'] = s
@@ -647,12 +659,16 @@ def run(desc, ctx):
             ctx.violate('R9:fault-free-connect-hangs', {'abort': str(cal['abort']), 'threads': getattr(cal['abort'], 'table', None)})
             return
         ktx, krx = cal['kmax']
+        if desc.get('at_connected'):
+            # the link dies / is closed around the very packet that makes the library signal `connected`
+            ctx_k = cal.get('k_connected') or (ktx, krx)
+            ktx, krx = ctx_k
         if desc['trigger'] == 'fault_tx':
             ks = list(range(1, ktx + 2))
         elif desc['trigger'] == 'fault_rx':
-            ks = list(range(1, krx + 2))
+            ks = list(range(1, krx + 2)) if not desc.get('at_connected') else [max(1, krx - 1), krx, krx + 1]
         elif desc['trigger'] == 'close_main':
-            ks = list(range(1, ktx + 1))
+            ks = list(range(1, ktx + 1)) if not desc.get('at_connected') else [max(1, ktx - 1), ktx, ktx + 1]
         elif desc['trigger'] == 'fault_connect':
             ks = list(range(1, 10))
         elif desc['trigger'] == 'close_portcb':
@@ -699,6 +715,8 @@ def run(desc, ctx):
             ctx.count('mon.sync_api' if desc['api'] == 'sync' else 'mon.async_api')
             if desc['line_p'] > 0:
                 ctx.count('mon.line_preempted_runs')
+                if desc.get('at_connected') and res['fired']:
+                    ctx.count('mon.runs_with_the_link_ending_around_the_packet_that_completes_the_set_up')
                 ctx.count('mon.line_points', s.line_points)
             ctx.count('mon.sched_steps', s.steps)
             ctx.count('mon.packets_handed_out_after_the_link_was_closed', getattr(res['spec'], 'rx_after_close', 0))
